@@ -80,6 +80,7 @@ def dep_before(a: 'seq[int]', b: 'seq[int]'):
 
 
 @lemma
+@bounded(4)
 def dep_transitive(a: 'seq[int]', b: 'seq[int]', c: 'seq[int]'):
     ensures(implies(dep_ok(a, b) and dep_ok(b, c), dep_ok(a, c)))
 
